@@ -15,7 +15,7 @@ func runCoSi(t *core.Tape, tier string, info *core.RunInfo) *core.Violation {
 	g := kit.Ed()
 	n := t.Range("cfg", 1, 10)
 	honestClass := t.Bool("cfg.class", 150)
-	msg := t.Bytes("cfg", 1+t.Intn("cfg", 40))
+	msg := kit.DrawMsg(t, "cfg", 40)
 	privs, pubs := kit.KeyPairs(g, t, "keys", n)
 	info.Config["session"], info.Config["n"] = "cosi", n
 
